@@ -18,8 +18,11 @@ IsEvent(k) == l <= Len(Trace) /\ Ev.k = k /\ Ev.abn = "" /\ l' = l + 1
 \* ARE the actions).  What the property fixes is compared with the log: Offset and the stored 1-bits.  The
 \* number of stored words is only required to hold every stored bit (the property does not fix capacity or
 \* spare words), so it is taken from the log; the unexported reclaim bookkeeping is not compared at all.
+\* The stored 1-bits are logged one by one (st.ones) or, for states with thousands of them, as runs
+\* <<first, length>> (st.runs).
+StOnes(st) == ToSet(st.ones) \cup UNION {r[1]..(r[1] + r[2] - 1) : r \in ToSet(st.runs)}
 Post(m, st) == /\ offset' = m[1] /\ bits' = m[3] /\ reclaimed' = m[4] /\ nw' = st.nw
-               /\ st.off = m[1] /\ ToSet(st.ones) = m[3] /\ st.nw >= 0
+               /\ st.off = m[1] /\ StOnes(st) = m[3] /\ st.nw >= 0
 
 Trim(S, o) == {x \in S : x >= o}
 
@@ -35,9 +38,19 @@ TraceSet ==
     /\ Post(SetF(tbvars, Ev.idx), Ev.st)
     /\ ever' = Trim(ever \cup {Ev.idx}, offset') /\ o0' = o0
     /\ Aligned' /\ InRange' /\ offset' >= offset                    \* multiple of W, every bit stored, never decreases
-    /\ \A j \in offset..(offset' - 1) : j \in (ever \cup {Ev.idx})   \* never moves past a 0
+    /\ \A j \in offset..(offset' - 1) : j \in ever \/ j = Ev.idx        \* never moves past a 0
     /\ bits' = ever'                                               \* neither forgets nor invents
     /\ (nw' > 0 => ~Full(offset', bits'))                          \* head word not all-ones after Set
+
+\* the macro-step Set(lo); ...; Set(hi-1) beyond the head word (TailBitmap!SetRangeF): one event
+TraceSetRange ==
+    /\ IsEvent("SetRange")
+    /\ RangeOK(tbvars, Ev.lo, Ev.hi)
+    /\ Post(SetRangeF(tbvars, Ev.lo, Ev.hi), Ev.st)
+    /\ ever' = ever \cup (Ev.lo..(Ev.hi - 1)) /\ o0' = o0
+    /\ Aligned' /\ InRange' /\ offset' = offset
+    /\ bits' = ever'
+    /\ (nw' > 0 => ~Full(offset', bits'))
 
 TraceCompact ==
     /\ IsEvent("Compact")
@@ -67,6 +80,6 @@ TraceGet1 ==
     /\ UNCHANGED <<o0, ever>> /\ Post(tbvars, Ev.st)
 
 TraceInit == offset = 0 /\ nw = 0 /\ bits = {} /\ reclaimed = 0 /\ l = 1 /\ o0 = 0 /\ ever = {}
-TraceNext == TraceNew \/ TraceSet \/ TraceCompact \/ TraceGet \/ TraceGet1
+TraceNext == TraceNew \/ TraceSet \/ TraceSetRange \/ TraceCompact \/ TraceGet \/ TraceGet1
 TraceSpec == TraceInit /\ [][TraceNext]_tvars
 ===============================================================================
